@@ -7,3 +7,4 @@ func verifCompiledInt(k int, field string) int       { return 0 }
 func verifCompiledLen(k int, field string, i int) int { return 0 }
 func verifCompiledKind(k int) string                 { return "" }
 func verifStubAPI() frontend.API                     { return nil }
+func verifCompiledOptions(k int) string              { return "" }
